@@ -18,7 +18,23 @@
      Options404Bare      OPTIONS for an unrouted target: bare error page (HTTP/1.1, no Date, Server,
                          Content-Length) and the connection is kept open when keep-alive was asked
      OptionsVersionFixed OPTIONS for a routed target: 204 always says HTTP/1.1
-     CrlfAfterBody       serialisation appends CRLF after a non-empty body, beyond Content-Length *)
+     CrlfAfterBody       serialisation appends CRLF after a non-empty body, beyond Content-Length
+     EofEndsHead         (refutable) end of stream inside a request head is taken for the end of the head: the
+                         truncated request is dispatched and answered like a complete one
+
+   Head truncated by the client's half-close (script element k = "trunc", only ever the LAST element): the client
+   sends hl bytes that are a proper prefix of a well-formed head (cut inside the start line, at a line boundary,
+   inside or after a header line - anywhere before the blank line) and then shuts down its sending side.  The server
+   meets end of stream inside the head (Srv_HeadEof): no handler is dispatched, the answer is 400 and the connection
+   closes.
+
+   Named leniencies of the statement (also switched through Dev; they widen what is ACCEPTED, they are not defects):
+     TruncSilentClose    "a malformed request is answered 400": a server that just closes on a client that went away
+                         in the middle of a head, without any response, is accepted as well
+     LenientLF           a complete head whose line endings are (partly) bare LF (script element k = "lf"; the code
+                         answers 400 at offset dl): RFC 7230 3.5 allows a recipient to recognise a lone LF, so the
+                         normal response to the request is accepted as well.  Init0 normalises the element to an
+                         ordinary "req" element: malformed at dl without the leniency, well formed with it. *)
 EXTENDS Integers, Sequences, FiniteSets, TLC
 
 CONSTANTS Dev,          \* set of deviation names
@@ -43,7 +59,8 @@ vars == <<script, sent, idling, idles, cliShut, taken, pos, cur, spc, open, out>
    k: "req" | "idle";  hl: head length in bytes (first byte included);  dl: offset within the head at
    which a malformed request is detected (= hl when well formed);  bl: body bytes;  wf: well formed;
    m: method;  tgt: target;  conn: "ka" | "close" | "none";  ver: "1.0" | "1.1" *)
-IsReq(e)  == e.k = "req"
+IsReq(e)  == e.k \in {"req", "trunc"}      \* elements that put bytes on the wire
+IsTrunc(e) == e.k = "trunc"               \* hl = bytes sent before the half-close; wf = FALSE; dl carries the cut class for the harness
 Size(e)   == IF IsReq(e) THEN e.hl + e.bl ELSE 0
 
 RECURSIVE SumTo(_, _)
@@ -79,7 +96,7 @@ BodyOf(r) == CASE r.tgt = "plain" -> 5
 \* property demands, D = Dev is what the code (as modelled) writes.  bid identifies whose body comes
 \* back: i when the echoing route returns request i's own body, 0 for fixed or empty bodies.
 RespD(D, r, i) ==
-  IF ~r.wf THEN BareD(D, 400, Len400)
+  IF ~r.wf /\ ~(IsTrunc(r) /\ "EofEndsHead" \in D) THEN BareD(D, 400, Len400)
   ELSE IF r.m = "OPTIONS"
        THEN IF Routed(r)
             THEN RD(D, 204, IF "OptionsVersionFixed" \in D THEN "1.1" ELSE r.ver, -1, 0, r.tgt = "cors", 0)
@@ -138,7 +155,13 @@ Min(a, b) == IF a < b THEN a ELSE b
 Max(a, b) == IF a > b THEN a ELSE b
 
 -----------------------------------------------------------------------------
-Init0(s) == /\ script = s
+\* "lf" elements (complete head, bare-LF line endings) become ordinary requests: see LenientLF above
+Norm(s) == [i \in 1..Len(s) |->
+              IF s[i].k = "lf"
+              THEN IF "LenientLF" \in Dev THEN [s[i] EXCEPT !.k = "req", !.wf = TRUE, !.dl = s[i].hl]
+                                          ELSE [s[i] EXCEPT !.k = "req", !.wf = FALSE]
+              ELSE s[i]]
+Init0(s) == /\ script = Norm(s)
             /\ sent = 0 /\ idling = FALSE /\ idles = 0 /\ cliShut = FALSE
             /\ taken = 0 /\ pos = 0 /\ cur = 0 /\ spc = "first" /\ open = TRUE /\ out = <<>>
 
@@ -193,7 +216,7 @@ Srv_Timeout408 ==
   /\ out' = Append(out, R408) /\ open' = FALSE
   /\ UNCHANGED <<script, sent, idling, idles, cliShut, taken, pos, cur, spc>>
 
-HeadNeed == Start(script, cur) + Req.dl
+HeadNeed == Start(script, cur) + (IF IsTrunc(Req) THEN Req.hl ELSE Req.dl)
 HeadEnd  == Start(script, cur) + Req.hl
 ReqEnd   == End(script, cur)
 
@@ -209,10 +232,18 @@ Srv_Fill(k) ==
   /\ UNCHANGED <<script, sent, idling, idles, cliShut, pos, cur, spc, open, out>>
 
 Srv_HeadDone ==
-  /\ open /\ spc = "head" /\ taken >= HeadNeed
+  /\ open /\ spc = "head" /\ taken >= HeadNeed /\ ~IsTrunc(Req)
   /\ IF ~Req.wf THEN /\ spc' = "err400" /\ pos' = HeadNeed
      ELSE /\ pos' = HeadEnd
           /\ spc' = IF Req.bl > 0 THEN "body" ELSE "dispatch"
+  /\ UNCHANGED <<script, sent, idling, idles, cliShut, taken, cur, open, out>>
+
+\* end of stream inside the head (the client has half-closed and everything it sent has been taken): the line reader
+\* returns what it has, the head is incomplete => malformed, no dispatch.  EofEndsHead: taken for a complete head.
+Srv_HeadEof ==
+  /\ open /\ spc = "head" /\ IsTrunc(Req) /\ cliShut /\ sent = Total(script) /\ taken = sent
+  /\ pos' = HeadEnd
+  /\ spc' = IF "EofEndsHead" \in Dev THEN "dispatch" ELSE "err400"
   /\ UNCHANGED <<script, sent, idling, idles, cliShut, taken, cur, open, out>>
 
 Srv_BodyDone ==
@@ -223,7 +254,8 @@ Srv_BodyDone ==
 \* a malformed request: 400, then the connection closes
 Srv_Respond400 ==
   /\ open /\ spc = "err400"
-  /\ out' = Append(out, Written(Req, cur)) /\ open' = FALSE
+  /\ out' = IF IsTrunc(Req) /\ "TruncSilentClose" \in Dev THEN out ELSE Append(out, Written(Req, cur))
+  /\ open' = FALSE
   /\ UNCHANGED <<script, sent, idling, idles, cliShut, taken, pos, cur, spc>>
 
 \* handler / OPTIONS branch / 404; a panicking handler kills the worker thread, the stream is dropped
@@ -286,7 +318,7 @@ ClientStep == \/ \E n \in 1..(Total(script) - sent) : Cli_Send(n)
               \/ Cli_IdleBegin \/ Cli_IdleEnd \/ Cli_Shut
 ServerStep == \/ Srv_ReadFirst \/ Srv_Eof \/ Srv_Timeout408
               \/ \E k \in 1..(sent - taken) : Srv_Fill(k)
-              \/ Srv_HeadDone \/ Srv_BodyDone \/ Srv_Respond400 \/ Srv_Dispatch \/ Srv_Write
+              \/ Srv_HeadDone \/ Srv_HeadEof \/ Srv_BodyDone \/ Srv_Respond400 \/ Srv_Dispatch \/ Srv_Write
               \/ Srv_Desync400 \/ Srv_Desync408
 Next == ClientStep \/ ServerStep
 
@@ -295,6 +327,12 @@ Next == ClientStep \/ ServerStep
 IsPrefixOf(a, b) == Len(a) <= Len(b) /\ \A i \in 1..Len(a) : Matches(a[i], b[i])
 SameResponses(a, b) == Len(a) = Len(b) /\ IsPrefixOf(a, b)
 
+\* everything owed has been written.  Named leniency (TruncSilentClose): for a head truncated by the client's
+\* half-close the 400 may be missing - the server closed without a response.
+SilentTrunc == /\ cur # 0 /\ IsTrunc(script[cur]) /\ spc = "err400" /\ ~open
+               /\ Len(out) + 1 = Len(Expected(script)) /\ IsPrefixOf(out, Expected(script))
+AllOwed == SameResponses(out, Expected(script)) \/ SilentTrunc
+
 \* exactly one response per request, in order, each with the demanded fields - never more, never other
 Inv_OutPrefix == IsPrefixOf(out, Expected(script))
 \* bytes of one request are never dropped or interpreted as part of another
@@ -302,7 +340,7 @@ Inv_InSync == spc # "desync" /\ (spc \in {"head", "body", "dispatch", "write", "
 \* the server closes only when it is due: after a response that does not keep the connection, a 400,
 \* a 408, a panic, or the client's EOF - and then everything owed has been written
 Inv_CloseWhenDue ==
-  ~open => /\ (SameResponses(out, Expected(script)) \/ (cliShut /\ spc = "first"))
+  ~open => /\ (AllOwed \/ (cliShut /\ spc = "first"))
            /\ ((~FinalOpen(script)) \/ cliShut)
 \* ... and conversely stays open while the script says keep-alive
 Inv_OpenWhileKept == (SameResponses(out, Expected(script)) /\ FinalOpen(script) /\ ~cliShut) => open
@@ -310,6 +348,6 @@ Inv_OpenWhileKept == (SameResponses(out, Expected(script)) /\ FinalOpen(script) 
 Inv_Sane == taken <= sent /\ pos <= Max(taken, pos) /\ sent <= Total(script)
 
 \* every request is eventually answered, whatever the segmentation
-Live_AllAnswered == <>[]SameResponses(out, Expected(script))
+Live_AllAnswered == <>[]AllOwed
 Live_ClosedOrWaiting == <>[](open => (spc = "first" /\ pos = sent))
 =============================================================================
